@@ -4,7 +4,7 @@ import random
 from ..harness import Scenario, gen_cfg, make_long, make_phase
 from ..riverlike import RealScenario, gen_real_cfg
 from ..probes import InjectedFault
-from ..core import jsonable
+from ..core import jsonable, config_guard
 
 SHARDS = {"quick": 3, "thorough": 16}
 TIMEOUT = {"quick": 1800, "thorough": 7200}
@@ -113,38 +113,39 @@ def main(run):
         run.count("configs")
         run.see("cfg-shape", (cfg["dyn"], cfg["d"], cfg["n_inner"], cfg["storage"][0], cfg["imputer"], cfg["names"],
                               cfg["model"], cfg["loss"], cfg["lbib"]))
-        hist = []
-        faulty = (i % 5 == 4)        # every 5th configuration: callbacks fail now and then, the caller catches and continues
-        for t in range(cfg["steps"]):
-            if cfg.get("checkpoint") and t == min(4, cfg["steps"] - 1) and not cfg.get("real"):
-                import copy
-                old_sc, sc = sc, copy.deepcopy(sc)      # checkpoint: the stream continues on a deep copy; the original is used for something else
+        with config_guard(run):
+            hist = []
+            faulty = (i % 5 == 4)        # every 5th configuration: callbacks fail now and then, the caller catches and continues
+            for t in range(cfg["steps"]):
+                if cfg.get("checkpoint") and t == min(4, cfg["steps"] - 1) and not cfg.get("real"):
+                    import copy
+                    old_sc, sc = sc, copy.deepcopy(sc)      # checkpoint: the stream continues on a deep copy; the original is used for something else
+                    try:
+                        old_sc.step()
+                    except Exception:
+                        pass
+                    run.count("checkpointed-streams")
+                kw = sc.call_kwargs()
+                if faulty and t >= 1 and sc.rnd.random() < 0.35:
+                    sc.clock.fail_at_next = sc.rnd.randrange(1, 3 + 2 * cfg["d"] * cfg["n_inner"])
                 try:
-                    old_sc.step()
-                except Exception:
-                    pass
-                run.count("checkpointed-streams")
-            kw = sc.call_kwargs()
-            if faulty and t >= 1 and sc.rnd.random() < 0.35:
-                sc.clock.fail_at_next = sc.rnd.randrange(1, 3 + 2 * cfg["d"] * cfg["n_inner"])
-            try:
-                x, y, ret, log = sc.step(**kw)
-            except InjectedFault:
-                run.count("injected-faults-survived")
-                if sc.e.seen_samples > 1 or sc.e.importance_values:
-                    check_identity(run, sc, f"cfg#{i} after a failed call at step {t}", {"cfg": cfg, "seed": seed, "step": t, "fault": True})
-                continue
-            except Exception as ex:
-                run.ok(kind="raised")
-                run.violation("explain-raises", f"cfg#{i} step {t}: explain_one raised {type(ex).__name__}: {ex} on a legal configuration",
-                              {"cfg": cfg, "seed": seed, "step": t, "kwargs": kw})
-                break
-            hist.append((x, y, kw))
-            replay = {"cfg": cfg, "seed": seed, "step": t, "kwargs": kw}
-            good, tot, exp = check_identity(run, sc, f"cfg#{i} step {t}", replay)
-            vals = {v for v in sc.e.importance_values.values() if v != 0}
-            if exp != 0 and len(vals) >= 2:
-                run.nontriv(("c01", run.shard[0], i, t))
-            if exp != 0 and len(vals) >= 2 and t >= 3 and len(run.samples) < 3 and i % 7 == 0:
-                run.sample({"cfg": cfg, "seed": seed, "steps": t + 1, "sum_importance": tot, "explained_loss": exp,
-                            "importance": dict(sc.e.importance_values)})
+                    x, y, ret, log = sc.step(**kw)
+                except InjectedFault:
+                    run.count("injected-faults-survived")
+                    if sc.e.seen_samples > 1 or sc.e.importance_values:
+                        check_identity(run, sc, f"cfg#{i} after a failed call at step {t}", {"cfg": cfg, "seed": seed, "step": t, "fault": True})
+                    continue
+                except Exception as ex:
+                    run.ok(kind="raised")
+                    run.violation("explain-raises", f"cfg#{i} step {t}: explain_one raised {type(ex).__name__}: {ex} on a legal configuration",
+                                  {"cfg": cfg, "seed": seed, "step": t, "kwargs": kw})
+                    break
+                hist.append((x, y, kw))
+                replay = {"cfg": cfg, "seed": seed, "step": t, "kwargs": kw}
+                good, tot, exp = check_identity(run, sc, f"cfg#{i} step {t}", replay)
+                vals = {v for v in sc.e.importance_values.values() if v != 0}
+                if exp != 0 and len(vals) >= 2:
+                    run.nontriv(("c01", run.shard[0], i, t))
+                if exp != 0 and len(vals) >= 2 and t >= 3 and len(run.samples) < 3 and i % 7 == 0:
+                    run.sample({"cfg": cfg, "seed": seed, "steps": t + 1, "sum_importance": tot, "explained_loss": exp,
+                                "importance": dict(sc.e.importance_values)})
